@@ -83,10 +83,12 @@ def parsePacket (bs : Bytes) : Except Err Packet :=
 
 /-- `RtpHeader::validate` -/
 def Header.validate (h : Header) : Except Err Unit :=
-  if h.csrcs.length > c15MaxCsrc then .error (.hdr "too many CSRC entries")
+  if h.pt.toNat > c15PtMax then .error (.hdr "payload type does not fit 7 bits")
+  else if h.csrcs.length > c15MaxCsrc then .error (.hdr "too many CSRC entries")
   else match h.ext with
     | some e =>
       if e.data.length % 4 ≠ 0 then .error (.hdr "header extension payload must be 32-bit aligned")
+      else if e.data.length / 4 > 65535 then .error (.hdr "header extension too long")   -- u16::MAX
       else .ok ()
     | none => .ok ()
 
@@ -96,8 +98,8 @@ def extBytes : Option Ext → Bytes
 
 /-- `RtpHeader::write_to` -/
 def writeHeader (h : Header) (hasPad : Bool) : Bytes :=
-  let b0 := 128 + (if hasPad then 32 else 0) + (if h.ext.isSome then 16 else 0) + h.csrcs.length % 16
-  let b1 := h.pt.toNat % 128 + (if h.marker then 128 else 0)
+  let b0 := 128 + (if hasPad then 32 else 0) + (if h.ext.isSome then 16 else 0) + h.csrcs.length % (c15CsrcMask + 1)
+  let b1 := h.pt.toNat % (c15PtMask + 1) + (if h.marker then 128 else 0)
   u8 b0 :: u8 b1 :: (be16 h.seq ++ be32 h.ts ++ be32 h.ssrc ++ be32s h.csrcs ++ extBytes h.ext)
 
 /-- `RtpPacket::marshal` (the buffer is sized by `encoded_len`, so `LengthMismatch` cannot occur) -/
